@@ -13,6 +13,7 @@ import (
 	"compress/zlib"
 	"fmt"
 	"io"
+	"os"
 	"strings"
 	"testing/iotest"
 
@@ -121,6 +122,79 @@ func verifLibFresh(alg int, kind int, src []byte) (cls int, y []byte) {
 	return 1, y
 }
 
+// verifLibClass is verifLibFresh for the sources of a history: a MALFORMED source that a fresh reader happens
+// to decode without complaint when drained in one go may fail when it is read in pieces (brotli notices some
+// damage only depending on how much input it has taken) — what the library makes of it is then not one thing,
+// and it is not a case (class 3).  Valid streams decode alike under every chunking.
+func verifLibClass(alg int, kind int, src []byte) (cls int, y []byte) {
+	cls, y = verifLibFresh(alg, kind, src)
+	if cls != 1 || alg == 1 {
+		return cls, y
+	}
+	for _, first := range []int{1, 0} { // one 1-byte Read, then drain; 1-byte reads throughout
+		r, ok := verifLibReader(alg, verifSource(kind, src))
+		if !ok {
+			return 3, nil
+		}
+		var got []byte
+		var err error
+		if first == 1 {
+			b := make([]byte, 1)
+			var k int
+			k, err = r.Read(b)
+			got = append(got, b[:k]...)
+			if err == nil {
+				var rest []byte
+				rest, err = io.ReadAll(r)
+				got = append(got, rest...)
+			} else if err == io.EOF {
+				err = nil
+			}
+		} else {
+			got, err = io.ReadAll(iotest.OneByteReader(r))
+		}
+		if c, ok := r.(io.Closer); ok {
+			c.Close()
+		}
+		if err != nil || !bytes.Equal(got, y) {
+			return 3, nil
+		}
+	}
+	return 1, y
+}
+
+// a new third-party reader on rd (false: it cannot be positioned)
+func verifLibReader(alg int, rd io.Reader) (io.Reader, bool) {
+	switch alg {
+	case 1:
+		return rd, true
+	case 2:
+		z, err := gzip.NewReader(rd)
+		return z, err == nil
+	case 3:
+		return brotli.NewReader(rd), true
+	case 4:
+		z, err := zstd.NewReader(rd)
+		if err != nil {
+			if z != nil {
+				z.Close()
+			}
+			return nil, false
+		}
+		return verifZstdCloser{z}, true
+	case 5:
+		z, err := zlib.NewReader(rd)
+		return z, err == nil
+	case 6:
+		return snappy.NewReader(rd), true
+	}
+	panic("verif: bad algorithm tag")
+}
+
+type verifZstdCloser struct{ *zstd.Decoder }
+
+func (z verifZstdCloser) Close() error { z.Decoder.Close(); return nil }
+
 var verifProbe = []byte(strings.Repeat("probe-0123456789;", 12) + "\x00\xff end")
 
 // which algorithm does a decompressor implement? 0 = none of the six
@@ -187,4 +261,244 @@ func verifCoqBytes(s string) string {
 	}
 	sb.WriteString("]")
 	return sb.String()
+}
+
+// ---------------------------------------------------------------------------
+// the history driver (c20.hist in the compression package, c20.trhist in the tracer)
+// ---------------------------------------------------------------------------
+
+// one step, with its own panic recovery: a crash ends the history
+func verifStep(f func() vsx) (res vsx, crashed bool) {
+	defer func() {
+		if r := recover(); r != nil {
+			if os.Getenv("VERIF_DEBUG") != "" {
+				fmt.Fprintf(os.Stderr, "verif c20: step panic: %v\n", r)
+			}
+			res, crashed = vCrash(), true
+		}
+	}()
+	return f(), false
+}
+
+func verifOK() vsx  { return vL(vS("ok")) }
+func verifAny() vsx { return vL(vS("any")) }
+func verifOKFlag(b bool) vsx {
+	return vL(vS("ok"), vBool(b))
+}
+
+// a scripted history on ONE compressor and ONE decompressor
+//
+//	(0 k)              compressor.Reset(destination k := new buffer)
+//	(1 bytes)          compressor.Write
+//	(2)                compressor.Close     -> ok + "a fresh library reader decodes the destination to what was written since Reset"
+//	(3 k kind)         decompressor.Reset(content of destination k as it was at its Close)
+//	(4 kind src cls y) decompressor.Reset(src); cls / y = what a fresh library reader makes of src
+//	(5)                io.ReadAll(decompressor)  -> ok + "equals what is still expected"
+//	(6 n)              read up to n bytes        -> ok + "equals the next n expected bytes"
+//	(7)                decompressor.Close
+//	(8 n)              ONE decompressor.Read(p), len(p) = n -> ok + "a prefix of what is still expected, at most n
+//	                   bytes, no error, io.EOF only with or after the last byte" (how many bytes: the library's choice)
+//
+// A step is reported in full where the wrapper logic and the documented contract of the
+// library fix the result: every Reset; reads and Close of a decompressor positioned on a
+// source of known class (1: decodes, 2: fails after some bytes) before any failure or
+// Close; Write / Close of a compressor between Reset and Close.  Elsewhere the result is
+// the library's business and only "panicked or not" is reported ((any) / (crash)).
+// The same rule is part of the model's result encoding (C20_Model.v h_step).
+func verifHistRun(enc int64, comp connect.Compressor, decomp connect.Decompressor, ops []vsx) vsx {
+	type sink struct {
+		content []byte
+		acc     []byte
+	}
+	const (
+		dFresh = iota
+		dP1
+		dP2
+		dU
+	)
+	const (
+		cFresh = iota
+		cOpen
+		cDone
+	)
+	// a literal source must carry what a fresh library reader really makes of it (the first pass of
+	// the generator computed it; a case mangled by the shrinker is not a case)
+	for _, op := range ops {
+		if len(op.l) == 5 && op.l[0].i == 4 {
+			cls, y := verifLibClass(int(enc), int(op.l[1].i), op.l[2].b)
+			if int64(cls) != op.l[3].i || !bytes.Equal(y, op.l[4].b) {
+				return vL(vS("bad-case"))
+			}
+		}
+	}
+	// Write / Close on a library writer that never had a destination is the library's business
+	// (the contract leaves it open): not a case
+	if enc != 1 {
+		for _, op := range ops {
+			if op.l[0].i == 0 {
+				break
+			}
+			if op.l[0].i == 1 || op.l[0].i == 2 {
+				return vL(vS("bad-case"))
+			}
+		}
+	}
+	closed := map[int64]*sink{}
+	var curID int64
+	var curBuf *bytes.Buffer
+	var acc []byte
+	cpos, dpos := cFresh, dFresh
+	var rem []byte // what the decompressor is still expected to deliver
+	var out []vsx
+	resetD := func(src io.Reader, cls int64, y []byte) vsx {
+		rem = nil
+		dpos = dU
+		if err := decomp.Reset(src); err != nil {
+			return vErr("e")
+		}
+		rem = y
+		switch cls {
+		case 1:
+			dpos = dP1
+		case 2:
+			dpos = dP2
+		}
+		return verifOK()
+	}
+	for _, op := range ops {
+		op := op
+		var f func() vsx
+		switch op.l[0].i {
+		case 0:
+			f = func() vsx {
+				curID, curBuf, acc, cpos = op.l[1].i, &bytes.Buffer{}, nil, cOpen
+				comp.Reset(curBuf)
+				return verifOK()
+			}
+		case 1:
+			f = func() vsx {
+				b := op.l[1].b
+				n, err := comp.Write(b)
+				if cpos != cOpen {
+					return verifAny()
+				}
+				if err != nil || n != len(b) {
+					return vErr("e")
+				}
+				acc = append(acc, b...)
+				return verifOK()
+			}
+		case 2:
+			f = func() vsx {
+				err := comp.Close()
+				if cpos != cOpen {
+					return verifAny()
+				}
+				if err != nil {
+					return vErr("e")
+				}
+				cpos = cDone
+				s := &sink{content: append([]byte(nil), curBuf.Bytes()...), acc: acc}
+				closed[curID] = s
+				cls, y := verifLibFresh(int(enc), 0, s.content)
+				return verifOKFlag(cls == 1 && bytes.Equal(y, s.acc))
+			}
+		case 3:
+			s := closed[op.l[1].i]
+			if s == nil {
+				return vL(vS("bad-case"))
+			}
+			f = func() vsx { return resetD(verifSource(int(op.l[2].i), s.content), 1, s.acc) }
+		case 4:
+			f = func() vsx { return resetD(verifSource(int(op.l[1].i), op.l[2].b), op.l[3].i, op.l[4].b) }
+		case 5, 6:
+			f = func() vsx {
+				var rd io.Reader = decomp
+				want := rem
+				limited := op.l[0].i == 6
+				if limited {
+					n := op.l[1].i
+					rd = io.LimitReader(decomp, n)
+					if int64(len(want)) > n {
+						want = want[:n]
+					}
+				}
+				full := dpos == dP1 || (dpos == dP2 && !limited)
+				y, err := io.ReadAll(rd)
+				switch {
+				case dpos == dP1 && err == nil:
+				case dpos == dFresh:
+				default:
+					dpos = dU
+				}
+				if err != nil {
+					if full {
+						return vErr("e")
+					}
+					return verifAny()
+				}
+				eq := bytes.Equal(y, want)
+				if len(y) <= len(rem) {
+					rem = rem[len(y):]
+				} else {
+					rem = nil
+				}
+				if full {
+					return verifOKFlag(eq)
+				}
+				return verifAny()
+			}
+		case 8:
+			f = func() vsx {
+				n := op.l[1].i
+				if n < 0 || n > 1<<24 {
+					n = 0
+				}
+				buf := make([]byte, n)
+				k, err := decomp.Read(buf)
+				z := buf[:k]
+				fine := err == nil || err == io.EOF
+				flag := bytes.HasPrefix(rem, z) && fine && (err != io.EOF || len(z) >= len(rem))
+				was := dpos
+				switch {
+				case dpos == dP1 && fine:
+				case dpos == dFresh:
+				default:
+					dpos = dU
+				}
+				if len(z) <= len(rem) {
+					rem = rem[len(z):]
+				} else {
+					rem = nil
+				}
+				if was == dP1 {
+					return verifOKFlag(flag)
+				}
+				return verifAny()
+			}
+		case 7:
+			f = func() vsx {
+				full := dpos == dP1
+				if dpos != dFresh {
+					dpos = dU
+				}
+				err := decomp.Close()
+				if !full {
+					return verifAny()
+				}
+				if err != nil {
+					return vErr("e")
+				}
+				return verifOK()
+			}
+		default:
+			return vL(vS("bad-case"))
+		}
+		res, crashed := verifStep(f)
+		out = append(out, res)
+		if crashed {
+			break
+		}
+	}
+	return vL(out...)
 }
